@@ -499,7 +499,8 @@ OnDealloc(m, e) ==
       o == b.o
       ob == m.objs[o]
       m0 == Flag(m, ~Get(e, "live", TRUE), "C03", "allocation released twice: object " \o ToString(o))
-      m1 == Flag(m0, e.size # b.size \/ e.align # b.align, "C03", "allocation of object " \o ToString(o) \o " released with a layout different from the one it was allocated with")
+      m1a == Flag(m0, e.size # b.size \/ e.align # b.align, "C03", "allocation of object " \o ToString(o) \o " released with a layout different from the one it was allocated with")
+      m1 == Flag(m1a, (e.size # b.size \/ e.align # b.align) /\ Depth(m) > 0 /\ Top(m).k = "op" /\ Top(m).op = "unwrap", "C13", "try_unwrap released the allocation of object " \o ToString(o) \o " with a wrong layout")
       rest == [x \in DOMAIN m.blocks \ {e.blk} |-> m.blocks[x]]
   IN
   IF b.k = "box" THEN
